@@ -1,0 +1,11 @@
+//go:build !verif
+
+package nodes
+
+// The verification hooks are no-ops outside verification builds (build tag `verif`).
+
+func verifJoinRecv(side, kind int) {}
+
+func verifJoinKind(ok, metadata bool, err error) int { return 0 }
+
+func verifJoinSide(left bool) int { return 0 }
